@@ -417,6 +417,11 @@ macro_rules! def_mut_call {
                 ("row", false, "skey") => recv.sort_unstable_by_row_key(line, |x| { fault::tick(fault::Site::Key); format!("{:010}", x.key()) }),
                 ("col", true, "skey") => recv.sort_by_col_key(line, |x| { fault::tick(fault::Site::Key); format!("{:010}", x.key()) }),
                 ("col", false, "skey") => recv.sort_unstable_by_col_key(line, |x| { fault::tick(fault::Site::Key); format!("{:010}", x.key()) }),
+                // "bkey": a one-byte key type (narrow keys / narrow index caches)
+                ("row", true, "bkey") => recv.sort_by_row_key(line, |x| { fault::tick(fault::Site::Key); x.key() as u8 }),
+                ("row", false, "bkey") => recv.sort_unstable_by_row_key(line, |x| { fault::tick(fault::Site::Key); x.key() as u8 }),
+                ("col", true, "bkey") => recv.sort_by_col_key(line, |x| { fault::tick(fault::Site::Key); x.key() as u8 }),
+                ("col", false, "bkey") => recv.sort_unstable_by_col_key(line, |x| { fault::tick(fault::Site::Key); x.key() as u8 }),
                 ("row", true, "ord") => recv.sort_row_ord::<()>(line),
                 ("row", false, "ord") => recv.sort_unstable_row_ord::<()>(line),
                 ("col", true, "cmp") => recv.sort_by_col(line, |x, y| { fault::tick(fault::Site::Cmp); x.key().cmp(&y.key()) }),
